@@ -364,7 +364,9 @@ func c09RunCCPath(t *testing.T, ops []string, o *Out) {
 				}
 			}
 		}
+		defer o.EndKept()
 		defer func() {
+			o.CheckKeptAll()
 			for _, pe := range peers {
 				for _, st := range pe.streams {
 					pe.ic.UnbindLocalStream(o.UnbindInfo(st.info))
@@ -554,7 +556,8 @@ func c09RunCCPath(t *testing.T, ops []string, o *Out) {
 					readFeedback(who, name, raw)
 					continue
 				}
-				if !c09AdapterFeedbackOp(peers[who].bwe.VerifFeedbackAdapter(), name, m, func(format string, a ...any) { o.PW(who, format, a...) }) {
+				o.CheckKept() // the acknowledgment slices returned so far are the caller's (retain_test.go)
+				if !c09AdapterFeedbackOp(peers[who].bwe.VerifFeedbackAdapter(), name, m, func(format string, a ...any) { o.PW(who, format, a...) }, o) {
 					o.PW(who, "bad-op")
 				}
 				continue
